@@ -39,8 +39,8 @@ func crashOpts(r *rng.R, thorough bool) gen.Opts {
 
 var crashConfigs = []string{"plain", "tiny-manifest", "large-batch", "transactions", "compact-range", "mixed"}
 
-func crashSpec(r *rng.R, config string, thorough bool) *wlSpec {
-	s := &wlSpec{Config: config, Opts: crashOpts(r, thorough), Seed: r.U64(), N: 100 + r.Intn(101), Settle: r.Chance(1, 2)}
+func crashSpec(r *rng.R, config string, thorough bool) *crSpec {
+	s := &crSpec{Config: config, Opts: crashOpts(r, thorough), Seed: r.U64(), N: 100 + r.Intn(101), Settle: r.Chance(1, 2)}
 	tiny := func() { s.Opts.MaxManifest = int64(64 << uint(r.Intn(6))) }
 	switch config {
 	case "tiny-manifest":
@@ -66,7 +66,7 @@ func runC04(c *Ctx) {
 	nwl := c.Scale(36, 4000)
 	leanLeft := int64(c.Scale(200, 2000))
 	type job struct {
-		spec *wlSpec
+		spec *crSpec
 		r    *rng.R
 	}
 	var jobs []job
